@@ -31,13 +31,7 @@ def ulp(v):
     v = abs(v)
     if v == 0:
         return TINY
-    e = mpmath.floor(mpmath.log(v, 2))
-    e = int(e)
-    # guard against log rounding at exact powers of two
-    while mpf(2) ** e > v:
-        e -= 1
-    while mpf(2) ** (e + 1) <= v:
-        e += 1
+    e = int(mpmath.frexp(v)[1]) - 1          # exact floor(log2 v), also for exponents of astronomical size
     return mpf(2) ** (max(e, -1022) - 52)
 
 
